@@ -367,7 +367,7 @@ class SourceFile:
         while i < len(segs):
             seg = segs[i]
             found = None
-            if seg.startswith('impl '):
+            if seg.startswith('impl ') or seg.startswith('impl<'):
                 cands = [it for it in level if it.kind == 'impl' and re.sub(r'\s+', ' ', it.name).strip() == seg]
                 if not cands:
                     cands = [it for it in level if it.kind == 'impl' and impl_key(it.name) == seg]
